@@ -1,3 +1,5 @@
+import NrDaemon.Props.Reviewed
+import NrDaemon.Gen.Skeleton
 import NrDaemon.Lemmas.Proc
 import NrDaemon.Lemmas.HarvestReqs
 import NrDaemon.Lemmas.Lifecycle
@@ -235,3 +237,9 @@ def reviewedProcessSpanBatch : List String := [
 /-- **C04 (tie: routing by run id is the code's).** -/
 theorem C04_routing_source_tied :
     Gen.Skeleton.processTxnData = reviewedProcessTxnData ∧ Gen.Skeleton.processSpanBatch = reviewedProcessSpanBatch := ⟨rfl, rfl⟩
+
+
+/-! ## Ties to the current source: the functions transcribed by the model have not changed since they were reviewed (`Props/Reviewed.lean`) -/
+
+/-- **C04 (tie).**  `doHarvest`: the request parameters of a harvest are built from the harvest event (run id) and the harvested application only. -/
+theorem C04_doharvest_source_tied : Gen.Skeleton.doHarvest = Reviewed.doHarvest := rfl
